@@ -247,18 +247,18 @@ def stripParens : Expr → Expr
   | .prim p a b => .prim p (stripParens a) (stripParens b)
   | e => e
 
-/-- left-nest a conjunction: `a && (b && c)` ⇒ `(a && b) && c` (the re-association step of
+/-- left-nest a conjunction completely: `a && (b && (c && d))` ⇒ `((a && b) && c) && d` (the re-association step of
 SimplifyParentheses, which — after the fix — is done for `&&` and `||` only) -/
 def rotAnd (a : Expr) : Expr → Expr
-  | .and b c => rotAnd (.and a b) c
+  | .and b c => rotAnd (rotAnd a b) c
   | e => .and a e
 
 def rotOr (a : Expr) : Expr → Expr
-  | .or b c => rotOr (.or a b) c
+  | .or b c => rotOr (rotOr a b) c
   | e => .or a e
 
 def rotAdd (a : Expr) : Expr → Expr
-  | .add b c => rotAdd (.add a b) c
+  | .add b c => rotAdd (rotAdd a b) c
   | e => .add a e
 
 /-- go/ast/astutil.SimplifyParentheses: drop every ParenExpr (go/printer re-inserts the
